@@ -15,7 +15,7 @@ PROPS = {
         "level_text": "Coq theorems over the hand-written 62-op codec model: decode(encode ops)=ops and encode(decode bytes)=bytes for all inputs, injectivity, totality, invalid-opcode and truncated-Push errors at every op boundary; the model's op table is proved equal to the table regenerated from asm.yml on every run and to the pinned table. Tied to the compiled crate by an exhaustive 256-byte table comparison, all op pairs, the short-constant table and random/mutated byte strings evaluated inside Coq.",
         "properties": "Properties/C13",
         "corr": ["Corr/RunAsm"],
-        "engines": [{"engine": "asm", "quick": 1500, "thorough": 40000}],
+        "engines": [{"engine": "asm", "quick": 1500, "thorough": 12000}],
         "rule": "op table of all 256 bytes, short constants, every op alone, every ordered op pair, bit-walking/boundary "
                 "Push immediates, every single byte, truncated Push at every length, random op sequences and mutated/uniform "
                 "byte strings; a case is non-trivial when it has more than one byte/op; distinct by literal",
@@ -25,7 +25,7 @@ PROPS = {
         "level_text": "Coq theorems: the byte-level scan of the serialisation of any well-formed program equals 'some op has one of the queried effects' for each of the 64 subsets (induction over programs; Push skips exactly 8 bytes), and analyze equals the union of per-op effects; flag values regenerated from the Rust source. Correspondence runs analyze and bytes_contains_any for all 64 subsets on immediates containing every opcode byte at every position.",
         "properties": "Properties/C15",
         "corr": ["Corr/RunAsm"],
-        "engines": [{"engine": "fx", "quick": 1500, "thorough": 30000}],
+        "engines": [{"engine": "fx", "quick": 1500, "thorough": 12000}],
         "rule": "every op alone, Push immediates containing every opcode byte at every position (with and without a following "
                 "effect op), all 64 subsets of effect ops in both orders, random programs biased towards effect bytes inside "
                 "immediates; each case queries all 64 effect subsets; non-trivial when the program is non-empty",
@@ -40,9 +40,9 @@ PROPS = {
         "properties": "Properties/C05",
         "corr": ["Corr/RunVm"],
         "engines": [
-            {"engine": "vm", "name": "vm_release", "profile": "release", "quick": 900, "thorough": 25000,
+            {"engine": "vm", "name": "vm_release", "profile": "release", "quick": 900, "thorough": 7200,
              "args": ["--families", "limits,limits,single,single,prog,malformed,control,compute,state,access,crypto", "--evals", "c05_mismatches,c05_spec_failures", "--gas", "--sweep"]},
-            {"engine": "vm", "name": "vm_checked", "profile": "relchk", "quick": 900, "thorough": 25000,
+            {"engine": "vm", "name": "vm_checked", "profile": "relchk", "quick": 900, "thorough": 7200,
              "args": ["--families", "limits,limits,single,single,prog,malformed,control,compute,state,access,crypto", "--evals", "c05_mismatches,c05_spec_failures", "--gas", "--sweep"]},
         ],
         "rule": "all VM case families (single data op on boundary operands and stack/memory shapes at the limits, structured and "
@@ -54,19 +54,22 @@ PROPS = {
     "C07": {
         "level_text": "Coq theorems: reported gas = spent + sum of costs of the executed-op list (children included), gas <= limit <= u64::MAX, out-of-gas error before the op with the state unchanged, termination with positive costs (Compute-free) and the exact cause of fuel exhaustion otherwise. Correspondence over cost/limit grids with the implementation's own priced-op record.",
         "properties": "Properties/C07",
-        "corr": ["Corr/RunVm"],
-        "engines": [{"engine": "vm", "quick": 1200, "thorough": 30000,
-                     "args": ["--families", "prog,control,compute,malformed,state", "--evals", "c07_mismatches,c07_spec_failures", "--gas", "--sweep"]}],
+        "corr": ["Corr/RunVm", "Corr/RunGraph"],
+        "engines": [{"engine": "vm", "quick": 1200, "thorough": 9600,
+                     "args": ["--families", "prog,control,compute,malformed,state", "--evals", "c07_mismatches,c07_spec_failures", "--gas", "--sweep"]},
+                    # the checker's total: the saturating sum over nodes, solutions and both passes equals the reference's
+                    {"engine": "graph", "name": "graph07", "quick": 400, "thorough": 3200}],
         "rule": "programs with backward jumps, repeats and Compute under cost functions const 0/1/2^62/u64::MAX/per-opcode tables and "
                 "limits 0,1,small,u64::MAX and +-3 around the default; the cost closure records every op it prices (the implementation's own "
-                "executed-op list); non-trivial = at least 2 executed ops",
+                "executed-op list); non-trivial = at least 2 executed ops; plus predicate graphs through the two-pass entry point, whose reported "
+                "gas is compared with the sum over every node run of the reference semantics",
         "assumes": ["the caller-supplied cost function is deterministic"],
     },
     "C08": {
         "level_text": "A declarative op specification (Spec/Ops.v, written from asm.yml without the model's helpers) and Coq theorems that the code-shaped model refines it for all 40 data ops: Ok iff spec Some with exactly that stack/memory and untouched pc/halt/repeat/parent; spec None => typed error; failing op reported at its own index. Correspondence evaluates the spec directly on the implementation's single-op results.",
         "properties": "Properties/C08",
         "corr": ["Corr/RunVm"],
-        "engines": [{"engine": "vm", "quick": 1600, "thorough": 60000,
+        "engines": [{"engine": "vm", "quick": 1600, "thorough": 12800,
                      "args": ["--families", "single,single,single,limits,prog", "--evals", "vm_mismatches,c08_spec_failures"]}],
         "rule": "every Stack/Pred/Alu/Memory/ParentMemory op on operands from the boundary pool and structurally valid operands, "
                 "stack shapes empty/short/at the 4096 limit, memory shapes empty/short/at the 10240 limit, parent memory present/absent; "
@@ -77,8 +80,8 @@ PROPS = {
         "level_text": 'Coq theorems: exact clause tables for JumpIf/HaltIf/PanicIf/Halt, the repeat stack as a state machine (counter sequences up/down, trip count max(n,1), outer slots untouched), a whole-program loop theorem for straight-line bodies, exec stopping cases as equations and eval_spec. Correspondence over control-flow programs incl. all boundary distances/counts and Vm::eval_ops.',
         "properties": "Properties/C09",
         "corr": ["Corr/RunVm"],
-        "engines": [{"engine": "vm", "quick": 1500, "thorough": 40000,
-                     "args": ["--families", "control,control,control,prog", "--evals", "vm_mismatches,sem_failures", "--sweep"]}],
+        "engines": [{"engine": "vm", "quick": 1500, "thorough": 12000,
+                     "args": ["--families", "control,control,control,control,prog,limits", "--evals", "vm_mismatches,sem_failures", "--sweep"]}],
         "rule": "repeat loops (counts <=0, 1, n, boundary values; both directions; nested), JumpIf with distances from the boundary pool and "
                 "all in-range distances, counted backward loops, Halt/HaltIf/PanicIf in the middle, start pcs inside and outside the program, "
                 "limit sweeps; Vm::eval_ops is run on every case",
@@ -88,7 +91,11 @@ PROPS = {
         "level_text": 'Coq theorems: compute_with equals a sequential left fold over indices 0..n-1 (child start state, memories appended in index order, max pc, gas sum against the remaining limit), all failure clauses, parent memory prefix preserved, resume equation of exec. Correspondence over breadths/child bodies/parents.',
         "properties": "Properties/C10",
         "corr": ["Corr/RunVm"],
-        "engines": [{"engine": "vm", "quick": 1000, "thorough": 20000,
+        "engines": [{"engine": "vm", "quick": 1000, "thorough": 8000,
+                     "args": ["--families", "compute", "--evals", "vm_mismatches,sem_failures", "--gas"]},
+                    # with two workers several compute indices share a rayon split: a sequential loop over fresh children
+                    # must still be what the join looks like
+                    {"engine": "vm", "name": "vm_pool2", "quick": 400, "thorough": 3200, "env": {"RAYON_NUM_THREADS": "2"},
                      "args": ["--families", "compute", "--evals", "vm_mismatches,sem_failures", "--gas"]}],
         "rule": "Compute with breadths <=0,1,2..5,17,64,200,1000,boundary values; children allocating index-dependent amounts, storing, "
                 "jumping on index parity, reading parent memory, halting, failing, nesting Compute, using the repeat counter; parents with "
@@ -99,7 +106,7 @@ PROPS = {
         "level_text": 'Coq theorems: the exact request (view pre/post, contract own/extern as 32 bytes of the 4 words, key, count) and the memory layout equation (pairs then values back to back, length preserved, frame unchanged, EMemory when it does not fit, view error returned unchanged). Correspondence with recording scripted views.',
         "properties": "Properties/C11",
         "corr": ["Corr/RunVm"],
-        "engines": [{"engine": "vm", "quick": 1500, "thorough": 40000,
+        "engines": [{"engine": "vm", "quick": 1500, "thorough": 12000,
                      "args": ["--families", "state", "--evals", "vm_mismatches,sem_failures"]}],
         "rule": "all four key-range ops, keys of length 0..4 incl. inconsistent key_len, counts 0/-1/boundary/1..4, addresses -1/in range/at "
                 "the end/boundary, scripted views answering exactly/fewer/more/no values/failing with values of length 0..4; every view call "
@@ -111,7 +118,7 @@ PROPS = {
         "level_text": "Coq theorems for arbitrary hash/signature oracles: PredicateData/Len/Slots exact results and failures, This*Address as 4 big-endian words (32-byte/4-word bijection), PredicateExists iff some solution's documented pre-image hashes to the words, Sha256/VerifyEd25519/RecoverSecp256k1 marshal exactly the documented bytes and results. Correspondence fills the oracles by calling essential-hash, ed25519-dalek and secp256k1 on the same bytes.",
         "properties": "Properties/C12",
         "corr": ["Corr/RunVm"],
-        "engines": [{"engine": "vm", "quick": 1200, "thorough": 30000,
+        "engines": [{"engine": "vm", "quick": 1200, "thorough": 9600,
                      "args": ["--families", "access,crypto", "--evals", "vm_mismatches,sem_failures"]}],
         "rule": "1..4 solutions with 0..4 slots; PredicateData/Len/Slots with in-range, boundary and out-of-range operands, near-full stacks; "
                 "ThisAddress/ThisContractAddress; PredicateExists with the hash of some solution's pre-image (computed by the harness with the "
@@ -125,8 +132,8 @@ PROPS = {
         "properties": "Properties/C14",
         "corr": ["Corr/RunMapped", "Corr/RunVm"],
         "engines": [
-            {"engine": "mapped", "quick": 1200, "thorough": 40000},
-            {"engine": "vm", "quick": 700, "thorough": 20000,
+            {"engine": "mapped", "quick": 1200, "thorough": 9600},
+            {"engine": "vm", "quick": 700, "thorough": 5600,
              "args": ["--families", "prog,control,compute,state,access,malformed", "--evals", "c14_spec_failures", "--gas"]},
         ],
         "rule": "byte strings: every byte in the middle of a program, an invalid opcode inserted at every position of a program with Pushes, "
@@ -139,8 +146,8 @@ PROPS = {
         "properties": "Properties/C16",
         "corr": ["Corr/RunTypes", "Corr/RunGraph"],
         "engines": [
-            {"engine": "types", "quick": 500, "thorough": 6000, "args": ["--kinds", "validate"]},
-            {"engine": "graph", "name": "graph16", "quick": 700, "thorough": 12000},
+            {"engine": "types", "quick": 500, "thorough": 4000, "args": ["--kinds", "validate"]},
+            {"engine": "graph", "name": "graph16", "quick": 700, "thorough": 5600},
         ],
         "rule": "boundary grid over number of solutions {0,1,2,3,100,101}, slots {0,1,100,101}, slot words {0,3,10000,10001}, total mutations "
                 "{999,1000,1001}, key words {1000,1001}, value words {10000,10001}, duplicate key within / across solutions; predicates with "
@@ -151,7 +158,7 @@ PROPS = {
         "level_text": "Coq theorems for an arbitrary hash function H: contract and set pre-images are invariant under permutation (sorted address lists are determined by their multiset), the address-list pre-images are injective up to multiset and salt, the postcard encoding of a solution is prefix-free and injective (varint/zig-zag round trips, a proved decoder), the predicate pre-image is its binary encoding (injective, reported size = length = 34n+2e+4), helpers agree, unencodable predicates map to the zero address (and therefore collide - stated). Correspondence recomputes every address with a Gallina SHA-256 over the model's pre-image and compares with essential_hash::content_addr, incl. all permutations of small contracts/sets and the from_*_addrs helpers.",
         "properties": "Properties/C17",
         "corr": ["Corr/RunTypes"],
-        "engines": [{"engine": "types", "quick": 600, "thorough": 8000, "args": ["--kinds", "addr,pred"]}],
+        "engines": [{"engine": "types", "quick": 600, "thorough": 4800, "args": ["--kinds", "addr,pred"]}],
         "rule": "random predicates (0..4 nodes, 0..5 edges incl. leaf markers), programs of 0..150 bytes, solutions with 0..2 slots and 0..3 mutations, "
                 "contracts of 0..2 predicates with random salt and sets of 0..2 solutions with ALL permutations, predicate encode/decode/size",
         "assumes": ["injectivity is of the pre-image, i.e. up to SHA-256 collisions (by statement)"],
@@ -161,7 +168,7 @@ PROPS = {
         "level_text": "Coq theorems under an explicit correctness hypothesis for the abstract recoverable signature scheme (never an axiom): sign-then-recover returns the signer's key for any predicate order; the signed digest is H of the contract pre-image and a changed salt or predicate-address multiset changes the signed bytes unless H collides (the step to 'a different key is recovered' is the ECDSA assumption and is not claimed); recovery ids outside 0..3 and malformed signatures are errors, never panics; the 33-byte/5-word and 65-byte/9-word encodings are injective; the VM's RecoverSecp256k1 consumes exactly sign::encode::signature and produces exactly sign::encode::public_key. Correspondence with real secp256k1 keys: sign/recover/verify, all predicate permutations, single-bit and structural tamperings, recovery ids 0..255 sampled, VM op vs sign crate. Partial: the binding itself rests on ECDSA and SHA-256.",
         "properties": "Properties/C19",
         "corr": ["Corr/RunSign"],
-        "engines": [{"engine": "sign", "quick": 250, "thorough": 5000}],
+        "engines": [{"engine": "sign", "quick": 250, "thorough": 4000}],
         "rule": "seeded secret keys, contracts of 0..2 random predicates with zero/random salt; per case: recover, verify, recover over all predicate "
                 "permutations, 3-7 tamperings (salt bit, added edge/node, dropped/added predicate, program address bit, signature bit), 11 recovery ids, "
                 "sign::encode of key and signature, and the VM op executed on words4(address) ++ encoded signature",
@@ -171,8 +178,8 @@ PROPS = {
         "level_text": "Coq theorems about the code-shaped model of the predicate-graph checker and an independent reference semantics (Spec/GraphRef.v): the level sort succeeds exactly on acyclic graphs, lists every node once with every edge going to a strictly later level, and never panics or runs out of fuel; malformed or cyclic graphs are rejected with the invalid-graph error before a single program is run; every node is run exactly once after all its parents on exactly the concatenation of their outputs in ascending parent order (nothing dropped by the filter_map); the verdict, gas and data outputs equal the reference; the first reported failing node is a genuine failure; the verdict, gas and data are invariant under renumberings that keep the order of co-parents; the two run modes over a shared cache evaluate each node exactly once. Correspondence: random DAGs with non-topological numberings, multi-edges, diamonds, raw malformed/cyclic/dangling encodings, 1-3 solutions, both collect_all values; the run recorder hook reports every program run with its inputs; the reference semantics is evaluated against the implementation's verdict, gas, returned set and runs.",
         "properties": ["Properties/C01", "Properties/TwoModeThms", "Properties/C01Renumber", "Properties/C01Set"],
         "corr": ["Corr/RunGraph"],
-        "engines": [{"engine": "graph", "quick": 900, "thorough": 20000},
-                    {"engine": "helpers", "quick": 800, "thorough": 20000}],
+        "engines": [{"engine": "graph", "quick": 900, "thorough": 7200},
+                    {"engine": "helpers", "quick": 800, "thorough": 6400}],
         "rule": "abstract random DAGs of 1..8 nodes numbered with non-leaves first in arbitrary (usually non-topological) order, multi-edges, "
                 "reversed child lists; raw random edge_start/edges vectors (overlapping ranges, leaves in the middle, invalid ranges, cycles, "
                 "self loops, dangling targets); node programs: constants, pass-through, memory producers, pre/post/extern state readers, "
@@ -185,24 +192,27 @@ PROPS = {
         "properties": "Properties/C02",
         "corr": ["Corr/RunGraph", "Corr/RunVm"],
         "engines": [
-            {"engine": "sched", "quick": 250, "thorough": 6000},
-            {"engine": "vm", "name": "vm_pool1", "quick": 250, "thorough": 5000, "env": {"RAYON_NUM_THREADS": "1"},
+            {"engine": "sched", "quick": 250, "thorough": 2000},
+            {"engine": "vm", "name": "vm_pool1", "quick": 250, "thorough": 4000, "env": {"RAYON_NUM_THREADS": "1"},
              "args": ["--families", "compute", "--evals", "vm_mismatches,sem_failures", "--gas"]},
-            {"engine": "vm", "name": "vm_pool16", "quick": 250, "thorough": 5000, "env": {"RAYON_NUM_THREADS": "16"},
+            {"engine": "vm", "name": "vm_pool16", "quick": 250, "thorough": 4000, "env": {"RAYON_NUM_THREADS": "16"},
+             "args": ["--families", "compute", "--evals", "vm_mismatches,sem_failures", "--gas"]},
+            # few workers: several compute indices end up in one rayon split, so state carried from one child to the next shows
+            {"engine": "vm", "name": "vm_pool3", "quick": 250, "thorough": 4000, "env": {"RAYON_NUM_THREADS": "3"},
              "args": ["--families", "compute", "--evals", "vm_mismatches,sem_failures", "--gas"]},
         ],
         "rule": "every graph case is executed under rayon pools of 1,2,3,4,8,16 workers with pseudo-random delays injected through the program "
                 "lookup; the six results (verdict, indices, gas, set, multiset of runs) must be identical, one of them is compared with the "
-                "sequential model and the reference; Compute cases run with 1 and 16 workers",
+                "sequential model and the reference; Compute cases run with 1, 3 and 16 workers",
         "assumes": ["tasks are pure functions of immutable inputs (checked by the shared-state inventory)", "rayon delivers indexed results by index"],
     },
     "C03": {
         "level_text": "Coq theorems: find_deferred is exactly reachability from the nodes whose bytecode contains a post-state read (= the reference's ancestors-or-self), for any numbering; the two passes partition the nodes (Outputs never evaluates a deferred node, Checks only deferred ones) and should_cache is 'not deferred with a deferred child'; next_key is the numeric successor of the key as a big-endian number with None exactly at the maximal key; read_or_fallback returns, key by key over the successor range, the last proposed value for (contract, key) else the pre-state value, passes the request through unchanged for contracts without proposals, and is well defined and order independent when each slot is proposed once; KeyRange ops depend only on the pre view and PostKeyRange ops only on the post view. Correspondence: the hook exposes read_or_fallback and next_key (keys around word carries and the maximal key, ranges straddling mutated/deleted/untouched keys, huge counts) and whole two-pass runs with readers at every graph position.",
         "properties": "Properties/C03",
         "corr": ["Corr/RunGraph"],
-        "engines": [{"engine": "post", "quick": 1200, "thorough": 30000},
-                    {"engine": "graph", "name": "graph03", "quick": 500, "thorough": 10000},
-                    {"engine": "helpers", "name": "helpers03", "quick": 500, "thorough": 10000}],
+        "engines": [{"engine": "post", "quick": 1200, "thorough": 9600},
+                    {"engine": "graph", "name": "graph03", "quick": 500, "thorough": 4000},
+                    {"engine": "helpers", "name": "helpers03", "quick": 500, "thorough": 4000}],
         "rule": "post engine: keys of 0..3 words from {MIN,-1,0,1,2,5,MAX-1,MAX,7} and their successor neighbourhoods, three contracts (one never "
                 "has proposals), proposals incl. deletions and re-proposals, counts 0,1,2..8,5000 and isize::MAX near the maximal key; graph engine: "
                 "pre/post/extern readers at random graph positions with declared and computed mutations",
@@ -223,7 +233,7 @@ PROPS = {
         "level_text": "Coq theorems: the set's content address and the verdict of set validation are invariant under permutation of the solutions; acceptance guarantees unique keys per solution only - the whole-set statement is refuted with a concrete accepted witness on which the post-state depends on the order (known finding F10); for sets whose (contract, key) slots are pairwise distinct the proposed value of every slot and the whole post-state view read by the second pass are order independent, exec depends on the solution list only through the solution being checked and the SET of predicate-data hashes, the per-solution check does not depend on the position of the solution, and the complete two-pass result corresponds under the permutation (same verdict, same gas, same computed mutations per solution; C04_two_pass_perm). The correspondence runs content_addr, check_set and the two-pass check on ALL permutations of generated sets of 1..3 solutions (shared and distinct contracts, overlapping keys) and compares them.",
         "properties": ["Properties/C04", "Properties/C04TwoPass"],
         "corr": ["Corr/RunGraph"],
-        "engines": [{"engine": "perm", "quick": 500, "thorough": 12000}],
+        "engines": [{"engine": "perm", "quick": 500, "thorough": 4000}],
         "rule": "sets of 1..3 solutions over two contracts with declared and computed mutations from a shared key pool, all 1/2/6 permutations "
                 "each through content_addr, check_set and check_and_compute_solution_set_two_pass; sets in which two solutions of one contract "
                 "propose a value for the same key are the known finding F10 and are reported as such; non-trivial = at least two solutions",
@@ -235,9 +245,9 @@ PROPS = {
         "properties": "Properties/C06",
         "corr": ["Corr/RunTypes", "Corr/RunGraph", "Corr/RunMapped"],
         "engines": [
-            {"engine": "types", "quick": 500, "thorough": 10000, "args": ["--kinds", "mut,pred"]},
-            {"engine": "graph", "name": "graph06", "quick": 400, "thorough": 8000},
-            {"engine": "mapped", "quick": 300, "thorough": 8000},
+            {"engine": "types", "quick": 500, "thorough": 4000, "args": ["--kinds", "mut,pred"]},
+            {"engine": "graph", "name": "graph06", "quick": 400, "thorough": 4000},
+            {"engine": "mapped", "quick": 300, "thorough": 4000},
         ],
         "probes": [
             {"class": "compute_breadth_allocation", "cmd": "probe-compute-breadth", "mem_kb": 3000000, "timeout": 60,
@@ -254,7 +264,7 @@ PROPS = {
         "level_text": "Coq theorems: decode(encode) = id for mutation lists (any keys/values) and predicates (<=1000 nodes/edges, any edge_start incl. the leaf marker, trailing bytes ignored), injectivity, reported sizes = lengths; word/8-byte, 4-word/32-byte, 8-word/64-byte conversions inverse in both directions; hex upper/lower encode with case-insensitive decode, words<->hex, Display/FromStr of ContentAddress and Signature with wrong lengths rejected; node_edges returns exactly the documented sub-range (empty for leaves, None exactly for invalid ranges); the human-readable serde surface of all public types round-trips at the data-model level incl. the legacy field names `data` and `decision_variables`, any field order, unknown fields ignored; the binary (postcard) encoding of every public type (ContentAddress, PredicateAddress, Mutation, Solution, SolutionSet, Node, Predicate, Program, Contract, Signature, SignedContract) decodes back, is prefix free and injective, and everything decoded is well formed. Correspondence against the crates incl. serde_json::to_value trees read back by the model, the bytes of postcard::to_allocvec compared with the model's encoder and read back by the model's decoder, acceptance of truncated / extended postcard bytes, and postcard/JSON round trips of the implementation. Partial: serde_json and postcard themselves are third-party.",
         "properties": ["Properties/C18", "Properties/PredicateCodecThms", "Properties/TextCodecThms", "Properties/PostcardThms"],
         "corr": ["Corr/RunTypes"],
-        "engines": [{"engine": "types", "quick": 1500, "thorough": 30000, "args": ["--kinds", "mut,pred,conv,text"]}],
+        "engines": [{"engine": "types", "quick": 1500, "thorough": 12000, "args": ["--kinds", "mut,pred,conv,text"]}],
         "rule": "mutation lists with keys/values of 0..3 words, their encodings and mutated encodings; predicates with 0..4 nodes, 0..5 edges, leaf markers "
                 "and out-of-range edge_start; words from the boundary pool; 32/64-byte arrays; hex of word lists in both cases; Display/FromStr of random "
                 "addresses and signatures in both cases; solution sets through serde_json (value tree, string, legacy names) and postcard; postcard bytes of random values of all ten public types, whole, truncated or followed by garbage",
